@@ -35,7 +35,8 @@ def cross(ctx, by_case):
 def run(ctx):
     from checks import sched_common
 
-    cov = sched_common.run_property(ctx, "C07", extra_cross_check=cross)
+    # failing twins are the known failing-twin finding; the driver with a waiter behind them belongs to C06/C08/C09
+    cov = sched_common.run_property(ctx, "C07", extra_cross_check=cross, case_filter=lambda c: c["driver"] != "waiter-behind-failing-duplicates")
     cov["rule"] = ("sharp drivers (incl. handle-passing) x every limits configuration from serial to unlimited x all completion "
                    "interleavings; oracle: across ALL explored (schedule, limits) pairs of one program the outcome is identical and, for "
                    "successful executions, the normalized call graph (call nodes, child edges, arguments incl. handle hashes) is identical")
